@@ -334,9 +334,21 @@ Example c05_prefix_nonvacuous :
       [a1; a2; a3; a4; a2] = ROk (c'', exs', [a2]) /\
     Forall answer_accepted [a1; a2; a3; a4].
 Proof.
-  cbv zeta. eexists _, _, _, _. split; [vm_compute; reflexivity|]. split; [vm_compute; reflexivity|].
-  eapply c05_run_passes_c_none_left_all_accepted with (p := Properties_C02_run.exrun_ps).
-  unfold run_passes_c. vm_compute. reflexivity.
+  cbv zeta.
+  assert (E1 : exists c' exs,
+    place_detailed_model_c Properties_C02_run.exrun Properties_C02_run.exrun_nets Properties_C02_run.exrun_ps
+      [Properties_C02_run.exrun_ans1; Properties_C02_run.exrun_ans2; Properties_C02_run.exrun_ans3;
+       Properties_C02_run.exrun_ans4] = ROk (c', exs, [])) by (eexists _, _; vm_compute; reflexivity).
+  destruct E1 as (c' & exs & E1).
+  assert (E2 : exists c'' exs',
+    place_detailed_model_c Properties_C02_run.exrun Properties_C02_run.exrun_nets Properties_C02_run.exrun_ps
+      [Properties_C02_run.exrun_ans1; Properties_C02_run.exrun_ans2; Properties_C02_run.exrun_ans3;
+       Properties_C02_run.exrun_ans4; Properties_C02_run.exrun_ans2] = ROk (c'', exs', [Properties_C02_run.exrun_ans2]))
+    by (eexists _, _; vm_compute; reflexivity).
+  destruct E2 as (c'' & exs' & E2).
+  exists c', exs, c'', exs'. split; [exact E1|]. split; [exact E2|].
+  destruct (c02_place_detailed_model_c_consumes_prefix _ _ _ _ _ _ _ E1) as (used & Eu & Fu).
+  rewrite app_nil_r in Eu. rewrite Eu. exact Fu.
 Qed.
 
 Print Assumptions c16_make_hier_levels_of_grid.
